@@ -742,7 +742,7 @@ def run(ck):
                              'C17_cheb_int_is_right_inverse', 'C17_ultra_matches_dense', 'C17_dirichlet_row_is_evaluation',
                              'C17_neumann_row_is_derivative', 'C17_integ_row_is_integral', 'C17_kron_is_tensor',
                              'C17_basis_change_inverse', 'C17_ultra_diff_correct_upto64', 'C17_ultra_S_correct_upto64',
-                             'C17_wavenumbers', 'C17_fourier_diff_power', 'C17_tables_are_model'])
+                             'C17_wavenumbers', 'C17_fourier_diff_power', 'C17_tables_are_model', 'C17_cheb_diff_mapped'])
     Ns = list(range(1, 65)) if thorough else QUICK_N
     cx = Ctx(ck)
     mono = Mono(64)
@@ -817,4 +817,6 @@ def run(ck):
         rej.setdefault('%s:%s' % (label, err), set()).add(N)
     ck.cov['rejected_by_code'] = {k: sorted(v) for k, v in sorted(rej.items())}
     ck.cov['resolutions'] = Ns
+    ck.cov['kernel_grid_tolerances'] = ('grid: |T_N(x)| <= ceil(N^2 (1+|off|/fac)) 2^-46 (calibrated on the pinned tree: observed <= 0.4% of it); '
+                                       'itransform: ceil(N^2 (1+|off|/fac) sum|c|) 2^-44 (observed <= 0.02% of it)')
     ck.cov['failing_configurations_per_operator'] = {'%s:%s' % k: v for k, v in sorted(cx.fail_count.items())}
